@@ -221,6 +221,10 @@ def _compare(res, fac, pair, block, kind):
     for d in devs:
         if fac.get_device(d.key) is not d and keys.count(d.key) == 1:
             res.fail(f"C12|lookup|{d.key}", f"get_device({d.key!r}) did not return that device")
+        # ... also when the key arrives as an equal string that is not the very same object (from a config file, a shell, json)
+        fresh = d.key.encode("utf-8").decode("utf-8") if isinstance(d.key, str) else d.key
+        if fac.get_device(fresh) is not d and keys.count(d.key) == 1:
+            res.fail("C12|lookup|equal-key", f"get_device of a key equal to {d.key!r} (a different string object) did not return that device")
     if fac.get_device("no-such-key") is not None:
         res.fail("C12|lookup|unknown-key", "get_device of an unknown key returned a device")
     return devices, wired_on, no_demand
